@@ -70,6 +70,10 @@ pub enum HAct {
     /// complete with a 200 response: Connection option (0 none, 1 close, 2 keep-alive), body bytes
     /// (0 = `content-length: 0`), number of Pending answers of the body stream before its chunk
     Respond { copt: u8, body: usize, bpend: u32 },
+    /// complete with Err(e): `e.into()` is a response with this status and a body of `body` bytes
+    /// (0 = empty: handled inside send_error_response; > 0 = State::SendErrorPayload) whose
+    /// stream answers Pending `bpend` times before its chunk
+    Fail { status: u16, body: usize, bpend: u32 },
 }
 
 #[derive(Serialize, Deserialize, Clone, Debug, PartialEq)]
@@ -238,15 +242,30 @@ impl<'a> Future for NextItem<'a> {
     }
 }
 
+/// error value of the scripted service: converts into a response with a scripted body
+#[derive(Debug)]
+pub struct HErr {
+    status: u16,
+    body: usize,
+    bpend: u32,
+}
+impl From<HErr> for Response<actix_http::body::BoxBody> {
+    fn from(e: HErr) -> Self {
+        Response::new(StatusCode::from_u16(e.status).unwrap_or(StatusCode::FORBIDDEN))
+            .set_body(actix_http::body::BoxBody::new(ScriptBody { n: e.body, pend: e.bpend, sent: false }))
+    }
+}
+
 async fn run_handler(
     mut req: Request,
     script: Vec<HAct>,
     idx: usize,
     log: Rc<RefCell<Vec<LogEv>>>,
     t0: tokio::time::Instant,
-) -> Result<Response<ScriptBody>, actix_http::Error> {
+) -> Result<Response<ScriptBody>, HErr> {
     let mut payload = Some(req.take_payload());
     let mut resp = (0u8, 0usize, 0u32);
+    let mut fail: Option<HErr> = None;
     for a in script {
         match a {
             HAct::Pend => PendOnce(false).await,
@@ -277,7 +296,17 @@ async fn run_handler(
                 resp = (copt, body, bpend);
                 break;
             }
+            HAct::Fail { status, body, bpend } => {
+                fail = Some(HErr { status, body, bpend });
+                break;
+            }
         }
+    }
+    if let Some(e) = fail {
+        drop(payload);
+        drop(req);
+        log.borrow_mut().push(LogEv::Done { i: idx });
+        return Err(e);
     }
     let mut b = Response::build(StatusCode::OK);
     match resp.0 {
@@ -535,6 +564,7 @@ fn coq_hact(a: &HAct) -> String {
         HAct::Respond { copt, body, bpend } => {
             format!("(HRespond {} {} {})", ["ONone", "OClose", "OKeepAlive"][(*copt).min(2) as usize], body, bpend)
         }
+        HAct::Fail { status, body, bpend } => format!("(HFail {} {} {})", status, body, bpend),
     }
 }
 fn coq_item(reqs: &[Req], it: &Item) -> String {
@@ -636,11 +666,13 @@ pub struct Truth {
     pub bad_round: Option<usize>,
     /// some request bytes follow the end of request i in the stream
     pub followed: Vec<bool>,
+    /// round in which the first of them arrives
+    pub follow_round: Vec<Option<usize>>,
 }
 
 pub fn truth(c: &Case) -> Truth {
     let n = c.reqs.len();
-    let mut tr = Truth { t: vec![], head_round: vec![None; n], end_round: vec![None; n], bad_round: None, followed: vec![false; n] };
+    let mut tr = Truth { t: vec![], head_round: vec![None; n], end_round: vec![None; n], bad_round: None, followed: vec![false; n], follow_round: vec![None; n] };
     let mut now = 0;
     let mut cur: Option<usize> = None;
     let mut body_open = false;
@@ -653,6 +685,7 @@ pub fn truth(c: &Case) -> Truth {
                     if let Some(j) = cur {
                         if j != *i && !body_open {
                             tr.followed[j] = true;
+                            tr.follow_round[j].get_or_insert(k);
                         }
                     }
                     if let Item::Req { i } = it {
@@ -674,6 +707,7 @@ pub fn truth(c: &Case) -> Truth {
                     if let Some(j) = cur {
                         if !body_open {
                             tr.followed[j] = true;
+                            tr.follow_round[j].get_or_insert(k);
                         }
                     }
                 }
@@ -682,6 +716,11 @@ pub fn truth(c: &Case) -> Truth {
         }
     }
     tr
+}
+
+/// a response produced by a handler (Ok or Err), as opposed to the dispatcher's own 400/408/431/500
+pub fn handler_head(w: &Wire) -> bool {
+    matches!(w, Wire::Head { status: 200 | 403, .. })
 }
 
 pub fn closing(w: &Wire) -> bool {
@@ -742,9 +781,9 @@ pub fn oracle_c03(c: &Case, o: &RunOut) -> Result<(), String> {
             return Err(format!("response head {:?} (poll {}) written after the closing response {:?} (poll {})", heads[fc + 1].1, heads[fc + 1].0, heads[fc].1, heads[fc].0));
         }
         // (3) no service call after the closing head was encoded
-        let is200 = matches!(heads[fc].1, Wire::Head { status: 200, .. });
+        let is200 = handler_head(&heads[fc].1);
         if is200 {
-            let nth = heads[..fc].iter().filter(|(_, w)| matches!(w, Wire::Head { status: 200, .. })).count();
+            let nth = heads[..fc].iter().filter(|(_, w)| handler_head(w)).count();
             let mut seen = 0;
             let mut after = false;
             for (k, e) in &log {
@@ -772,7 +811,7 @@ pub fn oracle_c03(c: &Case, o: &RunOut) -> Result<(), String> {
     // (4) a response completed while the request body had not arrived (content-length body: not
     //     drainable) announces close
     let mut nth200 = 0usize;
-    let heads200: Vec<&(usize, Wire)> = heads.iter().filter(|(_, w)| matches!(w, Wire::Head { status: 200, .. })).collect();
+    let heads200: Vec<&(usize, Wire)> = heads.iter().filter(|(_, w)| handler_head(w)).collect();
     for (k, e) in &log {
         if let LogEv::Done { i } = e {
             // (not when the peer has already closed or reset its sending side: the body can no
@@ -796,14 +835,23 @@ pub fn classes_c03(c: &Case) -> Vec<&'static str> {
     let tr = truth(c);
     let mut out = vec![];
     let n = c.reqs.len();
-    // F15: a request whose response closes the connection -- close semantics of its own, a handler
-    // that forces close, or a body that the handler does not read to its end (the early response
-    // is forced to close) -- followed by further request bytes
+    // F15: a request whose response closes the connection, followed by further request bytes that the
+    // dispatcher can still decode: close semantics of its own / a handler that forces close (the
+    // queue and the read side are never shut), or a body the handler does not read to its end WHEN the
+    // end of that body and the following bytes are in the same read as its head (the decode loop
+    // that dispatched the request goes on) or the response's body stream pends. An unread body whose
+    // end arrives in a LATER read than an already complete response is outside the class: LINGER /
+    // SHUTDOWN must stop everything.
     let f15 = (0..n).any(|i| {
         tr.followed[i]
             && (req_closes(c, i)
                 || c.hs[i].iter().any(|a| matches!(a, HAct::Respond { copt: 1, .. }))
-                || (c.reqs[i].body != 0 && !c.hs[i].iter().any(|a| matches!(a, HAct::ReadAll))))
+                || (c.reqs[i].body != 0
+                    && !c.hs[i].iter().any(|a| matches!(a, HAct::ReadAll))
+                    && ((tr.end_round[i].is_some() && tr.end_round[i] == tr.head_round[i] && tr.follow_round[i] == tr.head_round[i])
+                        // or the closing response's own body stream pends: the rest of the request
+                        // body and the follower can be decoded (and queued) before it completes
+                        || c.hs[i].iter().any(|a| matches!(a, HAct::Respond { body, bpend, .. } | HAct::Fail { body, bpend, .. } if *body > 0 && *bpend > 0)))))
     });
     if f15 {
         out.push("F15-close-then-more");
